@@ -230,6 +230,30 @@ theorem liveFrom_extra (p : Int → Bool) {dead extra : List Nat} :
           simp only [hp', Bool.false_eq_true, if_false, Bool.not_false, if_true]
           rw [ih]
 
+/-- Adding the positions `extra` to the deleted ones removes exactly the live rows AT those
+positions (no assumption on `extra`). -/
+theorem liveFrom_extra_pos {dead extra : List Nat} :
+    ∀ (i : Nat) (rows : List Int),
+      liveFrom i (extra ++ dead) rows = (liveFrom i dead rows).filter (fun q => !extra.contains q.1)
+  | _, [] => rfl
+  | i, x :: r => by
+      have hc : (extra ++ dead).contains i = (extra.contains i || dead.contains i) := by
+        simp [List.contains_eq_mem, List.mem_append, Bool.decide_or]
+      simp only [liveFrom, hc]
+      have ih := liveFrom_extra_pos (dead := dead) (extra := extra) (i + 1) r
+      by_cases hd : dead.contains i = true
+      · simp only [hd, Bool.or_true, if_true]
+        exact ih
+      · have hd' : dead.contains i = false := by simpa using hd
+        by_cases he : extra.contains i = true
+        · simp only [hd', he, Bool.or_false, if_true, Bool.false_eq_true, if_false,
+            List.filter_cons, Bool.not_true]
+          exact ih
+        · have he' : extra.contains i = false := by simpa using he
+          simp only [hd', he', Bool.or_false, Bool.false_eq_true, if_false, List.filter_cons,
+            Bool.not_false, if_true]
+          rw [ih]
+
 theorem mem_scan {pool : List (Key × List Int)} {s : Snap} : ∀ {keys : List Key}
     {l : List (Key × Nat × Int)}, scan? pool s keys = some l → ∀ x : Key × Nat × Int,
     (x ∈ l ↔ x.1 ∈ keys ∧ ∃ rows, lookupPool pool x.1 = some rows
@@ -273,6 +297,27 @@ theorem scan?_filter {pool : List (Key × List Int)} {s s' : Snap} (p : Int → 
       · rename_i rows rest hl hr
         cases h
         have ih := scan?_filter p (keys := r) (fun k' hk' => hk k' (List.mem_cons_of_mem _ hk')) hr
+        simp only [scan?, hl, ih, hk key List.mem_cons_self rows hl, List.filter_append,
+          List.filter_map]
+        rfl
+      · cases h
+
+/-- a snapshot that differs only in delete vectors, such that per row-set the live rows are the
+old live rows minus those at the positions `extra key` -/
+theorem scan?_filter_pos {pool : List (Key × List Int)} {s s' : Snap} (extra : Key → List Nat) :
+    ∀ {keys : List Key} {l : List (Key × Nat × Int)},
+    (∀ key ∈ keys, ∀ rows, lookupPool pool key = some rows →
+      liveFrom 0 (deadPos s' key) rows
+        = (liveFrom 0 (deadPos s key) rows).filter (fun q => !(extra key).contains q.1)) →
+    scan? pool s keys = some l →
+    scan? pool s' keys = some (l.filter (fun x => !(extra x.1).contains x.2.1))
+  | [], l, _, h => by simp only [scan?] at h; cases h; rfl
+  | key :: r, l, hk, h => by
+      simp only [scan?] at h
+      split at h
+      · rename_i rows rest hl hr
+        cases h
+        have ih := scan?_filter_pos extra (keys := r) (fun k' hk' => hk k' (List.mem_cons_of_mem _ hk')) hr
         simp only [scan?, hl, ih, hk key List.mem_cons_self rows hl, List.filter_append,
           List.filter_map]
         rfl
